@@ -454,4 +454,14 @@ package lib
 //@   ensures @C12: result1 == nil && rr != nil && rr.DstPort != nil ==> result0.PhantomPort == *rr.DstPort % 65536
 //@   ensures @C12: old(c2sw.RegistrationPayload.DisableRegistrarOverrides != nil && *c2sw.RegistrationPayload.DisableRegistrarOverrides) ==> c2sw.RegistrationPayload.TransportParams == old(c2sw.RegistrationPayload.TransportParams)
 //@   ensures @C12: result1 == nil && rr != nil && old(rr.TransportParams) != nil && !old(c2sw.RegistrationPayload.DisableRegistrarOverrides != nil && *c2sw.RegistrationPayload.DisableRegistrarOverrides) ==> c2sw.RegistrationPayload.TransportParams == old(rr.TransportParams)
+//@   assigns c2sw.RegistrationPayload.TransportParams, now()
+//@   checks safety
+
+// C11: a registration message from the ZMQ channel (arbitrary bytes, hence an arbitrary decoded wrapper with any
+// sub-message absent) is parsed without a nil dereference or an out-of-range index, and every registration it yields
+// is non-nil.
+//@ func (rm *RegistrationManager) parseRegMessage(msg []byte) ([]*DecoyRegistration, error)
+//@   requires rm != nil && rm.RegConfig != nil && rm.Logger != nil && rm.PhantomSelector != nil && rm.registeredDecoys != nil && rm.GeoIP != nil
+//@   requires forall k pb.TransportType :: k in rm.registeredDecoys.transports ==> rm.registeredDecoys.transports[k] != nil
+//@   ensures @C11: result1 == nil ==> (forall i int :: 0 <= i && i < len(result0) ==> result0[i] != nil)
 //@   checks safety
